@@ -174,8 +174,8 @@ var clientRelevant = map[string]map[string]bool{
 	"C08": set("unsolicited_record_skipped_inside_call", "eagain_x9_then_success", "eintr_run_inside_call", "kernel_errno_reported",
 		"semantic_errno_from_kernel_state", "stale_reply_refused", "call_judged_in_relaxed_mode", "reply_delayed_exactly_450ms", "getrules_with_2plus_rules",
 		"deleterules_stopped_at_failure", "event_between_ack_and_data", "getrules_buffer_overwritten_later", "sendto_failed", "kernel_immutable",
-		"getstatus_result_checked_again_at_end", "forged_reply_queued_ahead_of_the_kernels",
-		"injected_errno", "unsolicited_records", "stale_reply", "delayed_reply", "recv_eintr", "recv_eagain_injected", "recv_eagain_natural", "sendto_errno", "spoofed_datagram"),
+		"getstatus_result_checked_again_at_end", "forged_reply_queued_ahead_of_the_kernels", "ack_datagram_truncated",
+		"injected_errno", "unsolicited_records", "stale_reply", "delayed_reply", "recv_eintr", "recv_eagain_injected", "recv_eagain_natural", "sendto_errno", "spoofed_datagram", "truncated_or_padded_reply"),
 	"C16": set("status_reply_shorter_than_32", "status_reply_longer_than_44", "fromwire_short_buffer", "fromwire_partial_word",
 		"unsolicited_record_skipped_inside_call", "kernel_immutable", "getstatus_result_checked_again_at_end", "event_between_ack_and_data",
 		"unsolicited_records", "truncated_or_padded_reply"),
